@@ -1,12 +1,12 @@
 SPECIFICATION Spec
 CONSTANTS
   Nodes = {1, 2, 3, 4}
-  InitPower <- P3111
+  InitPower <- P1120
   Accounts = {"a", "b"}
-  Bodies <- BodiesM
-  SigLists <- ListsM
+  Bodies <- BodiesG
+  SigLists <- ListsG
   Replicas = {1, 2}
-  MaxTx = 3
+  MaxTx = 2
   MaxBlocks = 2
   DedupSigners = TRUE
   DirectOpen = FALSE
